@@ -109,6 +109,21 @@ def main(tier, write_baseline=False):
         return None
 
     refuted, rule_inputs = run.confirm_or_undecide(refuted, enum_replay, is_rule=lambda n: "/structural/literal-enum/" in n)
+
+    def default_replay():
+        # the clause the block contract on `default=` carries, on the real emitters / parsers: defaults of every kind of column
+        # (incl. a JSON column whose default is the text of a dict literal) come back, from all three variants
+        for typ_, dflt in (("dict", "{}"), ("dict", '{"seats": 3}'), ("str", "x"), ("int", 3), ("Optional[int]", domain.NONE), ("bool", False)):
+            ir = domain.make_ir((("str", domain.ABSENT, "[PK] the {name}"), (typ_, dflt, "the {name}")))
+            for cell in (("rest", False), ("google", True)):
+                try:
+                    r = contract(cell, ir)
+                except Exception as ex:
+                    r = [(("raises",), "%s: %s" % (type(ex).__name__, str(ex)[:200]), None)]
+                r = [x for x in r if run.match_finding({"class": "|".join(str(k) for k in x[0]), "obligation": "C05/bounded/%s" % x[0][0]}) is None]
+                if r:
+                    return {"cell": list(cell), "ir": json.loads(json.dumps(ir, default=str)), "what": r[0][1][:300]}
+        return None
     if write_baseline:
         common.write_baseline("C05", [n for n, o in run.obligations.items() if o["status"] == "proved"])
     compare_baseline(run, set(run.obligations))
@@ -138,7 +153,7 @@ def main(tier, write_baseline=False):
         if o["name"] in seen:
             continue
         seen.add(o["name"])
-        run.violation(o["name"], "obligation refuted by %s on path %s%s" % (o["backend"], " ".join(o["trace"]), "; ".join((o.get("notes") or [])[:1])), failing_input=rule_inputs.get(o["name"]), solver_output={"model": o["model"], "smt2": (o["smt2"] or "")[:4000]})
+        run.violation(o["name"], "obligation refuted by %s on path %s%s" % (o["backend"], " ".join(o["trace"]), "; ".join((o.get("notes") or [])[:1])), failing_input=rule_inputs.get(o["name"]) or (default_replay() if "default-emitted-as-given" in o["name"] else None) or common.model_replay("contracts.C05", o), solver_output={"model": o["model"], "smt2": (o["smt2"] or "")[:4000]})
     M.report(run, "C05/bounded", fails)
     M.flush_raise_baseline()
     common.apply_controls(run, tier)
